@@ -68,20 +68,33 @@ func verifHandleVote(tr *voteTracker, rh routerHandle, ev voteAcceptedEvent) (ou
 //verif:noop (github.com/algorand/go-algorand/crypto.Digest).String
 
 //verif:harness prop=C06 reach=done,fired,duplicate,equivocation unwind=12 budget=280 thorough.budget=3000
-func VerifC06CountingSoft() { verifC06Counting(soft, vr.Param(4, 4), vr.Param(2, verifC06Senders), false) }
+func VerifC06CountingSoft() { verifC06Counting(soft, 4, 2, false) }
 
 //verif:harness prop=C06 reach=done,fired,duplicate,equivocation unwind=12 budget=280 thorough.budget=3000
-func VerifC06CountingCert() { verifC06Counting(cert, vr.Param(4, 4), vr.Param(2, verifC06Senders), false) }
+func VerifC06CountingCert() { verifC06Counting(cert, 4, 2, false) }
 
 //verif:harness prop=C06 reach=done,fired,duplicate,equivocation unwind=12 budget=280 thorough.budget=3000
-func VerifC06CountingNext() { verifC06Counting(next, vr.Param(4, 4), vr.Param(2, verifC06Senders), false) }
+func VerifC06CountingNext() { verifC06Counting(next, 4, 2, false) }
 
 // Deeper histories at lower cost: all senders carry ONE shared symbolic weight
 // (so bundle packing order is decided by address alone) while the threshold
 // stays symbolic. This reaches the 5-6 vote interleavings of two equivocators
 // and a third voter that the fully symbolic-weight harnesses cannot afford.
 //verif:harness prop=C06 reach=done,fired,duplicate,equivocation unwind=12 budget=450 thorough.budget=3000
-func VerifC06DeepEqualWeights() { verifC06Counting(cert, vr.Param(5, 6), verifC06Senders, true) }
+func VerifC06DeepEqualWeights() { verifC06Counting(cert, 5, verifC06Senders, true) }
+
+// Thorough tier only: three senders with fully symbolic weights over 3 votes,
+// per step kind (L=4 with S=3 and symbolic weights did not finish inside an
+// hour per harness; L=6 equal-weight histories exceeded the path budget).
+//
+//verif:harness prop=C06 tier=thorough reach=done,fired,duplicate,equivocation unwind=12 thorough.budget=3000
+func VerifC06WideSoft() { verifC06Counting(soft, 3, verifC06Senders, false) }
+
+//verif:harness prop=C06 tier=thorough reach=done,fired,duplicate,equivocation unwind=12 thorough.budget=3000
+func VerifC06WideCert() { verifC06Counting(cert, 3, verifC06Senders, false) }
+
+//verif:harness prop=C06 tier=thorough reach=done,fired,duplicate,equivocation unwind=12 thorough.budget=3000
+func VerifC06WideNext() { verifC06Counting(next, 3, verifC06Senders, false) }
 
 func verifC06Counting(stp step, L int, nS int, equalWeights bool) {
 	thr := vr.U64("threshold")
